@@ -46,16 +46,35 @@ func VerifChanLen(pj *ParsedJson) int {
 	return len(pj.internal.indexChans)
 }
 
-// VerifBlock runs one 64-byte block through the stage-1 kernel family selected by avx512 and returns the
-// structural mask; the four carried state words are updated in place. Non-NDJSON (no newline detection).
-func VerifBlock(avx512 bool, buf []byte, prevOdd, prevInQuote, errMask, prevPseudo *uint64) uint64 {
-	if len(buf) < 64 {
-		panic("VerifBlock: need 64 bytes")
+// VerifBlock runs one block of 1..64 bytes through the production stage-1 entry point of the kernel family
+// selected by avx512 (the same call findStructuralIndices makes, including the masked partial load and
+// flatten_bits) and returns the structural mask; the four carried state words are updated in place.
+func VerifBlock(avx512, ndjson bool, buf []byte, prevOdd, prevInQuote, errMask, prevPseudo *uint64) uint64 {
+	if len(buf) == 0 || len(buf) > 64 {
+		panic("VerifBlock: need 1..64 bytes")
+	}
+	padded := [128]byte{}
+	copy(padded[:], buf)
+	var indexes [indexSize]uint32
+	index := 0
+	carried := uint64(0)
+	position := ^uint64(0)
+	nd := uint64(0)
+	if ndjson {
+		nd = 1
 	}
 	if avx512 {
-		return find_structural_bits_avx512(buf, prevOdd, prevInQuote, errMask, 0, prevPseudo)
+		find_structural_bits_in_slice_avx512(padded[:len(buf)], prevOdd, prevInQuote, errMask, prevPseudo, &indexes, &index, &carried, &position, nd)
+	} else {
+		find_structural_bits_in_slice(padded[:len(buf)], prevOdd, prevInQuote, errMask, prevPseudo, &indexes, &index, &carried, &position, nd)
 	}
-	return find_structural_bits(buf, prevOdd, prevInQuote, errMask, 0, prevPseudo)
+	mask := uint64(0)
+	pos := ^uint64(0)
+	for _, d := range indexes[:index] {
+		pos += uint64(d)
+		mask |= 1 << (pos & 63)
+	}
+	return mask
 }
 
 // VerifKernels runs the individual kernels of one family on a 64-byte block.
